@@ -288,12 +288,9 @@ Section AsmH.
     let u := nth (hunit_idx P) hunits one in
     outer fuel P solve powsf L (hdepth_raw P *. u) (nonlinear_scan P bound) 0.
 
-  (* HSolver::ChargeOnConductor; Depth is the member after AnalyzeProblem (planar: raw*units) *)
-  Definition heat_on_conductor (P : hprob) (Depth : F) (V : list F) (cond : nat) : F :=
-    let Pv := map (fun n => match ncond n with
-                            | Some c => if Nat.eqb c cond then one else zero
-                            | None => zero end) (hnodes P) in
-    fold_left (fun Z el =>
+  (* HSolver::ChargeOnConductor; Depth is the member after AnalyzeProblem (planar: raw*units).
+     [hoc_elem] is the body of the element loop, Pv the indicator vector L.P *)
+  Definition hoc_elem (P : hprob) (Depth : F) (V Pv : list F) (Z : F) (el : eelem) : F :=
       let n := ep el in
       let nj := fun j => tri_get n j in
       if aeqb A (vget A Pv (nj 0)) zero && aeqb A (vget A Pv (nj 1)) zero && aeqb A (vget A Pv (nj 2)) zero
@@ -318,5 +315,13 @@ Section AsmH.
              Dy -. (vget A V (nj k) *. vget A c k) /. da)) [0;1;2] ((zero, zero), zero, zero, zero, zero) in
         let Dx := Dx *. fst kn in
         let Dy := Dy *. snd kn in
-        Z +. a *. (Dx *. vx +. Dy *. vy)) (helems P) zero.
+        Z +. a *. (Dx *. vx +. Dy *. vy).
+
+  Definition conductor_indicator (P : hprob) (cond : nat) : list F :=
+    map (fun n => match ncond n with
+                  | Some c => if Nat.eqb c cond then one else zero
+                  | None => zero end) (hnodes P).
+
+  Definition heat_on_conductor (P : hprob) (Depth : F) (V : list F) (cond : nat) : F :=
+    fold_left (hoc_elem P Depth V (conductor_indicator P cond)) (helems P) zero.
 End AsmH.
